@@ -388,6 +388,8 @@ class AbsInt:
         elif op in ("Eq", "Ne"):
             if xy or (is_sym(pa) and is_sym(pb)):
                 par = "S"
+            if op == "Ne" and (xy or same):
+                dz = "Z"                      # x_i != y_i is false (0) on the diagonal
         elif op in ("Lt", "Le", "Gt", "Ge", "BitAnd", "BitOr", "BitXor", "Shl", "Shr", "Offset", "Cmp"):
             if is_sym(pa) and is_sym(pb):
                 par = "S"
@@ -590,6 +592,19 @@ class AbsInt:
 
     def _iter_op(self, p, av, args, t, is_mut):
         site = self.b.path + "@" + str(t.get("s"))
+        # ("EDIAG", inner): a stream that is empty on the diagonal (filtered by a predicate that is false for x == y)
+        if av and isinstance(av[0][0], tuple) and av[0][0][0] == "EDIAG":
+            inner = (av[0][0][1], av[0][1], av[0][2])
+            if p.endswith("Iterator::count") and len(av) == 1:
+                return ("S", "Z", "NN")
+            if p.endswith("Iterator::filter") and len(av) == 2:
+                r = self._iter_op(p, [inner] + list(av[1:]), args, t, is_mut)
+                if r is not None and r != TOP and not (isinstance(r[0], tuple) and r[0][0] == "EDIAG"):
+                    return (("EDIAG", r[0]), r[1], r[2])
+                return r
+            av = [inner] + list(av[1:])
+        if p.endswith("Iterator::count") and len(av) == 1 and isinstance(av[0][0], tuple) and av[0][0][0] in ("ZIP", "ENUM"):
+            return ("S", "T", "NN")
         if p.endswith("Iterator::zip") and len(av) == 2:
             a, b = av[0][0], av[1][0]
             if {a, b} == {"XV", "YV"}:
@@ -629,7 +644,11 @@ class AbsInt:
             if item == TOP:
                 return None
             r = self._apply_closure(args[1], [item])
-            return av[0] if is_sym(r[0]) else TOP
+            if not is_sym(r[0]):
+                return TOP
+            if p.endswith("Iterator::filter") and r[1] == "Z":
+                return (("EDIAG", av[0][0]), av[0][1], av[0][2])
+            return av[0]
         if p.endswith(("Iterator::all", "Iterator::any", "Iterator::position", "Iterator::for_each")) and len(av) == 2:
             item = self._item_of(av[0], site)
             if item == TOP:
